@@ -336,8 +336,11 @@ func (p *VipnodePool) connect(ctx context.Context, nodeID string, req ConnectReq
 		return nil, err
 	}
 
-	if err := p.BalanceManager.OnClient(node); err != nil {
-		return nil, err
+	if !isHost {
+		// Only clients are subject to the balance manager's admission check.
+		if err := p.BalanceManager.OnClient(node); err != nil {
+			return nil, err
+		}
 	}
 
 	enode := node.URI
